@@ -469,6 +469,12 @@ class TypeMatcherInstance:
 
             yield obj
 
+    def _all_values(self):
+        """Values of this record and of the records it holds (records in records), as ``_op`` visits them."""
+        yield from self._values()
+        for record in self._subrecords():
+            yield from TypeMatcherInstance(record, self._ftypeparts, self._attrs)._all_values()
+
     def _subrecords(self):
         """Return all fields that are records (records in records).
 
@@ -633,10 +639,10 @@ class RecordContextMatcher:
 
                 # Special case for __contains__, where we need to first unwrap all values matching the Type query
                 if comptype is ast.In and isinstance(left, TypeMatcherInstance):
-                    result = any(comp(v, right) for v in left._values())
+                    result = any(comp(v, right) for v in left._all_values())
                 elif comptype is ast.NotIn and isinstance(left, TypeMatcherInstance):
                     # ``a not in b`` is the negation of ``a in b``: none of the values may be in ``right``
-                    result = all(comp(v, right) for v in left._values())
+                    result = all(comp(v, right) for v in left._all_values())
                 else:
                     result = comp(left, right)
 
